@@ -180,6 +180,16 @@ R0(c) == CASE c.cls = "point" -> Route(IF c.extras THEN "df_default" ELSE "list"
 IntegralData(c) == \A i \in DOMAIN c.rows : Integral(c.rows[i].p) /\ Integral(c.rows[i].l)
 IntegralModel(c) == c.cls = "model" /\ \A i \in {1, 2} : Integral(c.model.prange[i]) /\ Integral(c.model.lrange[i])
 DfCont == {"df_default", "df_shift", "df_str", "df_reversed_labels"}
+\* The JSON format writes a branch mark only for desorption points; a file without any mark is
+\* parsed with branch='guess' (points after the first pressure maximum are desorption).  A parse of
+\* an export therefore carries the SAME content only if a desorption mark is present or the marks
+\* are the guessed ones; whether the codec preserves content otherwise is C06, not identity.
+ArgMaxFirst(rows) == CHOOSE i \in DOMAIN rows : /\ \A j \in DOMAIN rows : Round8(rows[j].p) <= Round8(rows[i].p)
+                                                /\ \A j \in 1..(i - 1) : Round8(rows[j].p) < Round8(rows[i].p)
+GuessedMarks(rows) == [i \in DOMAIN rows |-> IF i > ArgMaxFirst(rows) THEN 1 ELSE 0]
+JsonCarriesMarks(c) == \/ c.rows = <<>>
+                       \/ \E i \in DOMAIN c.rows : c.rows[i].b = 1
+                       \/ [i \in DOMAIN c.rows |-> c.rows[i].b] = GuessedMarks(c.rows)
 Applicable(c, r) ==
    CASE c.cls = "point" ->
           /\ r.cont \in {"list", "tuple", "ndarray"} \cup DfCont
@@ -189,6 +199,7 @@ Applicable(c, r) ==
           /\ (r.br \in {"column", "column_bool"} => r.cont \in DfCont)
           /\ (r.via = "from_isotherm" => r.br \in {"column", "column_bool"})     \* from_isotherm has no branch argument
           /\ r.via \in {"direct", "from_isotherm", "json", "copy"}
+          /\ (r.via = "json" => JsonCarriesMarks(c))
      [] c.cls = "base" -> r.cont = "kw" /\ r.lit = "float" /\ r.br = "na" /\ r.via \in {"direct", "json", "dict", "copy"}
      [] c.cls = "model" ->
           /\ r.cont \in {"instance", "from_dict"} /\ r.br = "na"
@@ -247,5 +258,10 @@ ImplHidden(c, r) ==
                             index |-> "na", branch |-> "na"]
      [] OTHER -> [num |-> "na", index |-> "na", branch |-> "na"]
 ImplHasId(c, r) == ImplHidden(c, r).num # "TypeError"
+\* a hashgen that hashes the data BY VALUE (floats to 8 decimals, branch marks as numbers, no row
+\* labels, model numbers as floats) leaves nothing route-dependent behind; the harness tells the
+\* oracle which transcription the tree under test corresponds to (never used for a verdict)
+ImplHiddenOf(variant, c, r) == IF variant = "value-hash" THEN [num |-> "na", index |-> "na", branch |-> "na"] ELSE ImplHidden(c, r)
+ImplHasIdOf(variant, c, r) == variant = "value-hash" \/ ImplHasId(c, r)
 ImplIdEq(c1, r1, c2, r2) == ContentEq(c1, c2) /\ ImplHidden(c1, r1) = ImplHidden(c2, r2)
 =============================================================================
